@@ -7,6 +7,8 @@ mod prng;
 mod udp_store;
 mod http_store;
 mod ws_store;
+mod validator;
+mod accesslist;
 
 use crate::core::*;
 use std::collections::BTreeMap;
@@ -39,6 +41,8 @@ macro_rules! dispatch {
             "udp_store" => $f::<udp_store::UdpStore>($($args),*),
             "http_store" => $f::<http_store::HttpStore>($($args),*),
             "ws_store" => $f::<ws_store::WsStore>($($args),*),
+            "validator" => $f::<validator::Validator>($($args),*),
+            "accesslist" => $f::<accesslist::AccessListHarness>($($args),*),
             other => {
                 eprintln!("HARNESS-ERROR: unknown harness {:?}", other);
                 std::process::exit(2);
